@@ -1,5 +1,425 @@
-(* Eval14.v — evaluation of C14 observations (stub: replaced when C14 is built). *)
-From Verif Require Import Base Sexp.
+(* Eval14.v — evaluation of C14 observations: the generated set/list helpers vs the models of
+   Sets/Model.v and the textbook specifications of Sets/ListSpec.v.
+
+   Observation lines (driver: harness/internal/c14):
+     (op T rawargs... (obs (before a..) (ret r..) (after a'..) (log x..)))   or   (op T rawargs... panic)
+   before/ret/after/log are serialised with ONE address labeller, so equal labels mean equal
+   addresses across them; the model runs on the [before] values.  Maps (map[T]struct{}) travel as
+   key slices [(sl maplabel (keys) ())], a nil map as [nils].  Fresh allocations have label 0 in
+   the model; the capacity of a fresh slice is not compared. *)
+From Coq Require Import String.
+From Verif Require Import Base Sexp Go.Ty Go.Val Go.Equal Go.Hash Eval03 Sets.Model Sets.ListSpec.
 Open Scope string_scope.
 
-Definition eval14 (e : sexp) : verdict := bad_line.
+(* ---------- structural identity of values (labels, bits, spare capacity included) ---------- *)
+Fixpoint val_eqb (x y : val) {struct x} : bool :=
+  let fix go (a b : list val) {struct a} : bool :=
+    match a, b with
+    | [], [] => true
+    | p :: a', q :: b' => (val_eqb p q && go a' b')%bool
+    | _, _ => false
+    end in
+  match x, y with
+  | VBool a, VBool b => Bool.eqb a b
+  | VInt a, VInt b => Z.eqb a b
+  | VF n m, VF n' m' => (Bool.eqb n n' && N.eqb m m')%bool
+  | VC a b c d, VC a' b' c' d' => (Bool.eqb a a' && N.eqb b b' && Bool.eqb c c' && N.eqb d d')%bool
+  | VStr a, VStr b => bytes_eqb a b
+  | VNilP, VNilP => true
+  | VPtr l v, VPtr l' v' => (N.eqb l l' && val_eqb v v')%bool
+  | VNilS, VNilS => true
+  | VSl l es sp, VSl l' es' sp' => (N.eqb l l' && go es es' && go sp sp')%bool
+  | VNilM, VNilM => true
+  | VMap l kvs, VMap l' kvs' =>
+      (N.eqb l l' &&
+       (fix gom (a : list (val * val)) (b : list (val * val)) {struct a} : bool :=
+          match a, b with
+          | [], [] => true
+          | kv :: a', kv' :: b' => (val_eqb (fst kv) (fst kv') && val_eqb (snd kv) (snd kv') && gom a' b')%bool
+          | _, _ => false
+          end) kvs kvs')%bool
+  | VArr a, VArr b => go a b
+  | VSt a, VSt b => go a b
+  | _, _ => false
+  end.
+Definition vals_eqb (a b : list val) : bool := all2b val_eqb a b.
+
+(* printing (for the replay file) *)
+Fixpoint val_sexp (v : val) : sexp :=
+  match v with
+  | VBool b => L [Sym "b"; of_bool b]
+  | VInt z => L [Sym "i"; Num z]
+  | VF n m => L [Sym "f"; of_bool n; Num (Z.of_N m)]
+  | VC a b c d => L [Sym "c"; of_bool a; Num (Z.of_N b); of_bool c; Num (Z.of_N d)]
+  | VStr s => L (Sym "s" :: map (fun b => Num (Z.of_N b)) s)
+  | VNilP => Sym "nilp"
+  | VPtr l x => L [Sym "p"; Num (Z.of_N l); val_sexp x]
+  | VNilS => Sym "nils"
+  | VSl l es sp => L [Sym "sl"; Num (Z.of_N l); L (map val_sexp es); L (map val_sexp sp)]
+  | VNilM => Sym "nilm"
+  | VMap l kvs => L [Sym "m"; Num (Z.of_N l); L (map (fun kv => L [val_sexp (fst kv); val_sexp (snd kv)]) kvs)]
+  | VArr es => L (Sym "a" :: map val_sexp es)
+  | VSt es => L (Sym "st" :: map val_sexp es)
+  end.
+
+(* ---------- the observation record ---------- *)
+Record obs := { o_before : list val; o_ret : list sexp; o_after : list val; o_log : list val }.
+Definition tagged (h : string) (e : sexp) : option (list sexp) :=
+  match e with L (Sym s :: r) => if String.eqb s h then Some r else None | _ => None end.
+Definition parse_obs (e : sexp) : option obs :=
+  match e with
+  | L [Sym _; b; r; a; lg] =>
+      match tagged "before" b, tagged "ret" r, tagged "after" a, tagged "log" lg with
+      | Some b', Some r', Some a', Some l' =>
+          match map_opt parse_val b', map_opt parse_val a', map_opt parse_val l' with
+          | Some vb, Some va, Some vl => Some {| o_before := vb; o_ret := r'; o_after := va; o_log := vl |}
+          | _, _, _ => None
+          end
+      | _, _, _, _ => None
+      end
+  | _ => None
+  end.
+Definition is_panic (e : sexp) : bool := sym_is "panic" e.
+Fixpoint last_sexp (l : list sexp) : option sexp :=
+  match l with [] => None | [x] => Some x | _ :: r => last_sexp r end.
+
+(* ---------- comparison of slices: aliasing with the arguments, fresh results ---------- *)
+Definition is_nil {A} (l : list A) : bool := match l with [] => true | _ => false end.
+(* zero-size element types: every such slice/pointer has the same address in Go *)
+Fixpoint zero_size (t : ty) : bool :=
+  match t with
+  | TN _ _ u => zero_size u
+  | TAr n u => (Nat.eqb n 0 || zero_size u)%bool
+  | TSt fs => (fix go (l : list (bool * ty)) : bool :=
+                 match l with [] => true | f :: l' => (zero_size (snd f) && go l')%bool end) fs
+  | _ => false
+  end.
+Definition top_labels (vs : list val) : list N :=
+  flat_map (fun v => match v with VSl l es sp => if is_nil (es ++ sp)%list then [] else [l] | _ => [] end) vs.
+(* m: model (label 0 = fresh backing array, capacity not modelled); r: real *)
+Definition slice_match (zs : bool) (tops : list N) (m r : val) : bool :=
+  match m, r with
+  | VNilS, VNilS => true
+  | VSl lm em sm, VSl lr er sr =>
+      (vals_eqb em er &&
+       (if N.eqb lm 0 then zs || is_nil (er ++ sr)%list || negb (existsb (N.eqb lr) tops)
+        else N.eqb lm lr && vals_eqb sm sr))%bool
+  | _, _ => false
+  end.
+Definition elems_opt (v : val) : option (list val) := slice_elems v.
+
+(* equal as sets of keys under == (both sides pairwise different) *)
+Definition keys_distinct_l (ks : list val) : bool := keys_distinct ks.
+Definition set_match (m r : list val) : bool :=
+  (Nat.eqb (List.length m) (List.length r) && keys_distinct_l r
+   && forallb (fun k => key_in k r) m)%bool.
+
+(* ---------- the reference equality ---------- *)
+Definition eqb (t : ty) (x y : val) : bool :=
+  match spec_eq [] t x y with Some b => b | None => false end.
+Definition typed_all (t : ty) (vs : list val) : bool := forallb (has_type [] t) vs.
+Definition keyable_all (vs : list val) : bool := forallb (fun x => go_eqeq x x) vs.
+
+Definition mk_pred (t : ty) (kind : string) (c : val) : option pred :=
+  if String.eqb kind "ptrue" then Some (fun _ _ => true)
+  else if String.eqb kind "pfalse" then Some (fun _ _ => false)
+  else if String.eqb kind "peq" then
+    Some (fun _ x => match Equal.eqm [] Top t x c with Ok b => b | _ => false end)
+  else if String.eqb kind "ppar" then Some (fun log _ => Nat.even (List.length log))
+  else None.
+
+Definition res_tag {A} (r : res A) : string :=
+  match r with Ok _ => "ok" | Pan => "panic" | Unsup => "unsupported" | Stuck => "stuck" end.
+Definition bool_tag (b : bool) (y n : string) : string := if b then y else n.
+
+Definition mkv (known mok sok guard : bool) (m : sexp) (tag : string) : verdict :=
+  {| v_known := known; v_model_ok := mok; v_spec_ok := sok; v_guard := guard; v_model := m; v_tag := tag |}.
+
+Definition path_tag (t : ty) : string := if can_equal t then "eqeq" else "equal".
+Definition has_dups (t : ty) (es : list val) : bool :=
+  negb (Nat.eqb (List.length (keep_first (eqb t) [] es)) (List.length es)).
+
+(* key slice <-> map *)
+Definition to_map (v : val) : val :=
+  match v with VSl l ks _ => VMap l (unit_entries ks) | _ => VNilM end.
+Definition map_label (v : val) : N := match v with VMap l _ => l | VSl l _ _ => l | _ => 0%N end.
+
+Definition eval_op (op : string) (t : ty) (raw : list sexp) (o : option obs) : verdict :=
+  let ts := TSl t in
+  let zs := zero_size t in
+  match o with
+  | None =>
+      (* the call panicked: none of the modelled functions can (Union on a nil first map did before
+         fix C14-fix-union-nil-map) *)
+      mkv true false false true (Sym "no-panic") (op ++ "/unexpected-panic")
+  | Some ob =>
+      let tops := top_labels (o_before ob) in
+      if String.eqb op "contains" then
+        match o_before ob, o_ret ob, o_after ob with
+        | [lst; item], [rb], [lst'; item'] =>
+            match slice_elems lst, get_b rb with
+            | Some es, Some b =>
+                let guard := (has_type [] ts lst && has_type [] t item)%bool in
+                let same := (val_eqb lst lst' && val_eqb item item')%bool in
+                let m := contains_m [] t lst item in
+                mkv true
+                    (match m with Ok b' => Bool.eqb b b' && same | _ => false end)%bool
+                    (Bool.eqb b (mem (eqb t) item es) && same)%bool
+                    guard
+                    (match m with Ok b' => of_bool b' | _ => Sym (res_tag m) end)
+                    ("contains/" ++ path_tag t ++ "/" ++ bool_tag b "found" "absent" ++ "/" ++ node_tag t)
+            | _, _ => bad_line
+            end
+        | _, _, _ => bad_line
+        end
+      else if String.eqb op "unique" then
+        match o_before ob, map_opt parse_val (o_ret ob), o_after ob with
+        | [lst], Some [r], [lst'] =>
+            match slice_elems lst, slice_elems r with
+            | Some es, Some rs =>
+                let guard := has_type [] ts lst in
+                let m := unique_m [] t 0%N (fun ks => ks) lst in
+                let cmp := can_equal t in
+                let K := keep_first (eqb t) [] es in
+                mkv true
+                    (match m with
+                     | Ok (mr, ma) =>
+                         (val_eqb ma lst' &&
+                          if cmp then
+                            match mr, r with
+                            | VNilS, VNilS => true
+                            | VSl _ mk _, VSl lr rk rsp => set_match mk rk && slice_match zs tops (VSl 0%N rk []) r
+                            | _, _ => false
+                            end
+                          else slice_match zs tops mr r)%bool
+                     | _ => false
+                     end)
+                    (* pairwise non-Equal, covers every input element, only input elements; first
+                       occurrences in order when the elements are not ==-comparable *)
+                    (Nat.eqb (List.length (keep_first (eqb t) [] rs)) (List.length rs) &&
+                     forallb (fun x => mem (eqb t) x rs) es &&
+                     forallb (fun x => existsb (val_eqb x) es) rs &&
+                     (cmp || vals_eqb rs K))%bool
+                    guard
+                    (match m with Ok (mr, _) => val_sexp mr | _ => Sym (res_tag m) end)
+                    ("unique/" ++ (if cmp then "map-path" else "hash-path") ++ "/"
+                     ++ (if is_nil es then "empty" else bool_tag (has_dups t es) "dups" "nodups") ++ "/" ++ node_tag t)
+            | _, _ => bad_line
+            end
+        | _, _, _ => bad_line
+        end
+      else if String.eqb op "set" then
+        match o_before ob, map_opt parse_val (o_ret ob), o_after ob with
+        | [lst], Some [r], [lst'] =>
+            match slice_elems lst, slice_elems r with
+            | Some es, Some rs =>
+                let guard := (has_type [] ts lst && keyable_all es)%bool in
+                let m := set_m 0%N lst in
+                mkv true
+                    (match m with
+                     | Ok mv => match map_keys mv with
+                                | Some mk => set_match mk rs && val_eqb lst lst'
+                                             && negb (match r with VNilS => true | _ => false end)
+                                | None => false end
+                     | _ => false end)%bool
+                    (keys_distinct rs && forallb (fun x => key_in x rs) es
+                     && forallb (fun k => key_in k es) rs && val_eqb lst lst')%bool
+                    guard
+                    (match m with Ok mv => val_sexp mv | _ => Sym (res_tag m) end)
+                    ("set/" ++ bool_tag (Nat.eqb (List.length rs) (List.length es)) "nodups" "dups" ++ "/" ++ node_tag t)
+            | _, _ => bad_line
+            end
+        | _, _, _ => bad_line
+        end
+      else if (String.eqb op "union" || String.eqb op "intersect")%bool then
+        match o_before ob, map_opt parse_val (o_ret ob), o_after ob with
+        | [a; b], Some [r], [a'; b'] =>
+            match slice_elems a, slice_elems b, slice_elems r with
+            | Some es1, Some es2, Some rs =>
+                let guard := (has_type [] ts a && has_type [] ts b)%bool in
+                if String.eqb op "union" then
+                  let m := union_m [] t 0%N a b in
+                  let want := (es1 ++ keep_first (eqb t) es1 es2)%list in
+                  mkv true
+                      (match m with
+                       | Ok (mr, ma) => slice_match zs tops mr r && val_eqb ma a' && val_eqb b b'
+                       | _ => false end)%bool
+                      (vals_eqb rs want)
+                      guard
+                      (match m with Ok (mr, _) => val_sexp mr | _ => Sym (res_tag m) end)
+                      ("union/" ++ path_tag t ++ "/"
+                       ++ (if Nat.eqb (List.length rs) (List.length es1) then "nothing-new"
+                           else match m with Ok (VSl 0%N _ _, _) => "grown" | _ => "in-spare-capacity" end))
+                else
+                  let m := intersect_m [] t 0%N a b in
+                  let want := filter (fun v => mem (eqb t) v es2) es1 in
+                  mkv true
+                      (match m with
+                       | Ok mr => slice_match zs tops mr r && val_eqb a a' && val_eqb b b'
+                       | _ => false end)%bool
+                      (vals_eqb rs want && val_eqb a a' && val_eqb b b')%bool
+                      guard
+                      (match m with Ok mr => val_sexp mr | _ => Sym (res_tag m) end)
+                      ("intersect/" ++ path_tag t ++ "/" ++ bool_tag (is_nil rs) "empty" "nonempty")
+            | _, _, _ => bad_line
+            end
+        | _, _, _ => bad_line
+        end
+      else if (String.eqb op "unionm" || String.eqb op "intersectm")%bool then
+        match o_before ob, o_ret ob, o_after ob with
+        | [a; b], [rs; sm], [a'; b'] =>
+            match slice_elems a, slice_elems b, parse_val rs, get_b sm, slice_elems a', slice_elems b' with
+            | Some k1, Some k2, Some r, Some same, Some k1', Some k2' =>
+                match slice_elems r with
+                | Some rk =>
+                    let guard := (typed_all t (k1 ++ k2)%list && keyable_all (k1 ++ k2)%list
+                                  && keys_distinct k1 && keys_distinct k2)%bool in
+                    let rnil := match r with VNilS => true | _ => false end in
+                    if String.eqb op "unionm" then
+                      let m := union_map_m 0%N (fun ks => ks) (to_map a) (to_map b) in
+                      let anil := match a with VNilS => true | _ => false end in
+                      mkv true
+                          (match m with
+                           | Ok mv => match map_keys mv with
+                                      | Some mk => set_match mk rk && negb rnil
+                                                   && (if anil then negb same && is_nil k1' else same && set_match rk k1')
+                                                   && set_match k2 k2'
+                                      | None => false end
+                           | _ => false end)%bool
+                          (keys_distinct rk && forallb (fun x => key_in x rk) (k1 ++ k2)%list
+                           && forallb (fun k => key_in k (k1 ++ k2)%list) rk && set_match k2 k2')%bool
+                          guard
+                          (match m with Ok mv => val_sexp mv | _ => Sym (res_tag m) end)
+                          ("unionm/" ++ bool_tag anil "nil-first" "first-extended-in-place")
+                    else
+                      let m := intersect_map_m 0%N (fun ks => ks) (to_map a) (to_map b) in
+                      mkv true
+                          (match m with
+                           | Ok mv => match map_keys mv with
+                                      | Some mk => set_match mk rk && negb rnil
+                                                   && (negb same || (is_nil k1 && is_nil k2))
+                                                   && set_match k1 k1' && set_match k2 k2'
+                                      | None => false end
+                           | _ => false end)%bool
+                          (keys_distinct rk && forallb (fun x => negb (key_in x k2) || key_in x rk) k1
+                           && forallb (fun k => key_in k k1 && key_in k k2) rk
+                           && set_match k1 k1' && set_match k2 k2')%bool
+                          guard
+                          (match m with Ok mv => val_sexp mv | _ => Sym (res_tag m) end)
+                          ("intersectm/" ++ bool_tag (is_nil rk) "empty" "nonempty")
+                | None => bad_line
+                end
+            | _, _, _, _, _, _ => bad_line
+            end
+        | _, _, _ => bad_line
+        end
+      else
+        (* predicate functions: raw = [kind; c; list] *)
+        match raw, o_before ob, o_after ob with
+        | Sym kind :: _, [c; lst], [c'; lst'] =>
+            match mk_pred t kind c, slice_elems lst with
+            | Some p, Some es =>
+                let guard := (has_type [] ts lst && has_type [] t c)%bool in
+                let bs := answers p [] es in
+                let log := o_log ob in
+                if String.eqb op "filter" then
+                  match map_opt parse_val (o_ret ob) with
+                  | Some [r] =>
+                      match slice_elems r with
+                      | Some rs =>
+                          let m := filter_m p lst in
+                          mkv true
+                              (match m with
+                               | Ok (mr, ma, ml) => slice_match zs tops mr r && val_eqb ma lst' && vals_eqb ml log
+                               | _ => false end)%bool
+                              (vals_eqb rs (filter_by es bs) && vals_eqb log es)%bool
+                              guard
+                              (match m with Ok (mr, _, _) => val_sexp mr | _ => Sym (res_tag m) end)
+                              ("filter/" ++ kind ++ "/" ++ (if is_nil rs then "none"
+                                  else if Nat.eqb (List.length rs) (List.length es) then "all" else "some"))
+                      | None => bad_line
+                      end
+                  | _ => bad_line
+                  end
+                else if String.eqb op "takewhile" then
+                  match map_opt parse_val (o_ret ob) with
+                  | Some [r] =>
+                      match slice_elems r with
+                      | Some rs =>
+                          let m := takewhile_m 0%N p lst in
+                          mkv true
+                              (match m with
+                               | Ok (mr, ml) => slice_match zs tops mr r && val_eqb lst lst' && vals_eqb ml log
+                               | _ => false end)%bool
+                              (vals_eqb rs (take_while_by es bs) && vals_eqb log (upto_first false es bs)
+                               && val_eqb lst lst')%bool
+                              guard
+                              (match m with Ok (mr, _) => val_sexp mr | _ => Sym (res_tag m) end)
+                              ("takewhile/" ++ kind ++ "/" ++ (if is_nil rs then "none"
+                                  else if Nat.eqb (List.length rs) (List.length es) then "all" else "some"))
+                      | None => bad_line
+                      end
+                  | _ => bad_line
+                  end
+                else if (String.eqb op "all" || String.eqb op "any")%bool then
+                  match o_ret ob with
+                  | [rb] =>
+                      match get_b rb with
+                      | Some b =>
+                          let isall := String.eqb op "all" in
+                          let m := if isall then all_m p lst else any_m p lst in
+                          let want := if isall then forallb (fun x => x) bs else existsb (fun x => x) bs in
+                          let wlog := upto_first (negb isall) es bs in
+                          mkv true
+                              (match m with
+                               | Ok (mb, ml) => Bool.eqb mb b && vals_eqb ml log && val_eqb lst lst'
+                               | _ => false end)%bool
+                              (Bool.eqb b want && vals_eqb log wlog && val_eqb lst lst')%bool
+                              guard
+                              (match m with Ok (mb, _) => of_bool mb | _ => Sym (res_tag m) end)
+                              (op ++ "/" ++ kind ++ "/" ++ bool_tag b "true" "false" ++ "/"
+                               ++ (if is_nil es then "empty"
+                                   else if Nat.eqb (List.length log) (List.length es) then "to-the-end" else "short-circuit"))
+                      | None => bad_line
+                      end
+                  | _ => bad_line
+                  end
+                else bad_line
+            | _, _ => bad_line
+            end
+        | _, _, _ => bad_line
+        end
+  end.
+
+Definition sup14 (t : ty) : bool := (eq_sup [] Top t && (can_equal t || hash_sup t))%bool.
+
+Definition eval14 (e : sexp) : verdict :=
+  match e with
+  | L [Sym k; tys; Sym cls] =>
+      if String.eqb k "sup-c14" then
+        match parse_ty tys with
+        | Some t =>
+            let sup := sup14 t in
+            let real_ok := String.eqb cls "ok" in
+            let real_err := String.eqb cls "generator-error" in
+            let crash := (String.eqb cls "panic" || String.eqb cls "timeout")%bool in
+            let ok := (crash || if sup then real_ok else real_err)%bool in
+            mkv true ok ok true (Sym (if sup then "ok" else "generator-error"))
+                ("support/" ++ (if crash then "generator-crash-see-C09"
+                                else if sup then "supported" else "unsupported"))
+        | None => bad_line
+        end
+      else bad_line
+  | L (Sym op :: tys :: rest) =>
+      match parse_ty tys, last_sexp rest with
+      | Some t, Some ob =>
+          let raw := removelast rest in
+          if is_panic ob then eval_op op t raw None
+          else match parse_obs ob with
+               | Some o => eval_op op t raw (Some o)
+               | None => bad_line
+               end
+      | _, _ => bad_line
+      end
+  | _ => bad_line
+  end.
